@@ -30,17 +30,21 @@ Differs(m) ==
 
 SetOf(s) == {s[i] : i \in DOMAIN s}
 
-\* files that must be reported
-Expected(r) == {r.muts[i].file : i \in {j \in DOMAIN r.muts : Differs(r.muts[j])}}
+\* A tampering of one path changes every snapshot path that shares its inode (m.group: the hard-link group,
+\* the path itself included; <<path>> for a file with a single link inside the snapshot).
+DiffFiles(r) == UNION {SetOf(r.muts[i].group) : i \in {j \in DOMAIN r.muts : Differs(r.muts[j])}}
 
-\*  r.muts       sequence of [file, kind, pos, len, size]
+\*  r.muts       sequence of [file, kind, pos, len, size, group]
 \*  r.reported   files for which the collecting run reported an error
 \*  r.collect_err the collecting run itself returned an error (it must not: all errors were swallowed)
 \*  r.failfast_err the default (abort on first error) run returned an error
 \*  r.differs_actual  files whose bytes really differ from the snapshot (harness byte comparison)
 \* The demand does not depend on r.overwrite (the --overwrite mode the restore ran with).
+\* Exactly the differing files are reported; of a hard-link group it suffices that one path is reported
+\* (the difference is reported; all paths are the same inode).
 RecOK(r) ==
-  /\ SetOf(r.differs_actual) = Expected(r)           \* the harness applied what the spec describes
-  /\ SetOf(r.reported) = Expected(r)                 \* exactly the differing files are reported
-  /\ r.failfast_err <=> (Expected(r) # {})           \* verification succeeds iff nothing differs
+  /\ SetOf(r.differs_actual) = DiffFiles(r)           \* the harness applied what the spec describes
+  /\ SetOf(r.reported) \subseteq DiffFiles(r)          \* no file that equals the snapshot is reported
+  /\ \A i \in DOMAIN r.muts : Differs(r.muts[i]) => SetOf(r.reported) \cap SetOf(r.muts[i].group) # {}
+  /\ r.failfast_err <=> (DiffFiles(r) # {})           \* verification succeeds iff nothing differs
 =============================================================================
